@@ -30,7 +30,7 @@ If(c, name) == IF c THEN {name} ELSE {}
 \* (ids, most recent last), the cleanups already run, the contexts it obtained
 Frame(id, k) == [id |-> id, k |-> k, open |-> TRUE, stack |-> <<>>, ran |-> {}, running |-> 0, ctxs |-> {}, regs |-> 0]
 NoSM == [active |-> FALSE, hasInv |-> FALSE, needInv |-> FALSE, lastSkipped |-> FALSE, failed |-> FALSE, inAct |-> FALSE,
-         inInv |-> FALSE, skips |-> 0, completed |-> 0, actDraws |-> 0, nf |-> FALSE, invRuns |-> 0, steps |-> 0, ovr |-> FALSE, actions |-> {"*"}, key |-> ""]
+         inInv |-> FALSE, skips |-> 0, completed |-> 0, actDraws |-> 0, nf |-> FALSE, invRuns |-> 0, steps |-> 0, ovr |-> FALSE, actions |-> {"*"}, key |-> "", pre |-> FALSE]
 
 Init == /\ l = 1 /\ scen = [id |-> ""] /\ fr = <<>> /\ kind = "none" /\ sm = NoSM /\ viol = {} /\ seen = {}
 
@@ -165,12 +165,16 @@ Ctx ==
 SmBegin ==
   /\ Is("sm.begin") /\ Adv
   /\ sm' = [NoSM EXCEPT !.active = TRUE, !.hasInv = Ev.hasinv, !.needInv = Ev.hasinv,
-                        !.actions = IF "actions" \in DOMAIN Ev THEN { Ev.actions[i] : i \in 1..Len(Ev.actions) } ELSE {"*"}]
+                        !.actions = IF "actions" \in DOMAIN Ev THEN { Ev.actions[i] : i \in 1..Len(Ev.actions) } ELSE {"*"},
+                        \* (the test case may have failed non-fatally before Repeat is entered: then no action runs at all)
+                        !.failed = IF "failedbefore" \in DOMAIN Ev THEN Ev.failedbefore ELSE FALSE,
+                        !.pre = IF "failedbefore" \in DOMAIN Ev THEN Ev.failedbefore ELSE FALSE]
   /\ viol' = viol /\ UNCHANGED <<scen, fr, kind, seen>>
 
 SmInvBegin ==
   /\ Is("sm.inv.begin") /\ Adv
-  /\ viol' = viol \cup If(sm.failed, "continued_after_falsification")
+  \* (the invariant's first run comes before Repeat looks at the failure flag: it may follow a failure raised before Repeat was entered)
+  /\ viol' = viol \cup If(sm.failed /\ ~(sm.pre /\ sm.invRuns = 0 /\ sm.steps = 0), "continued_after_falsification")
                   \cup If(~sm.needInv /\ sm.lastSkipped, "invariant_after_skipped_action")
                   \cup If(~sm.needInv /\ ~sm.lastSkipped, "invariant_not_run_once")
                   \cup If(sm.inAct \/ sm.inInv, "actions_overlap")
